@@ -240,6 +240,22 @@ CHECKS.update({
              "exceeding 150 s are discarded."),
 })
 
+CHECKS.update({
+    "C18": dict(
+        technique="TLA+ spec Fit (configuration matrix, bounds-packing law, post-condition; optimiser as environment): TLC "
+                  "enumerates the matrix and evaluates FitPost on the recorded outcome of every configuration run on a real loss object",
+        level="exploration",
+        text="TLC checks that the Fortran-order reshape used to pack lb / ub yields one (lower, upper) pair per variable (the "
+             "C-order reshape does not) and enumerates 1720 configurations (6 catalogue models x 5 loss classes x ordered "
+             "selections of <= 2 free parameters x start interior / on lower / on upper bound / at the generating values x tight / "
+             "wide box).  Each configuration run returns ranks per coordinate and of the start / result costs recomputed from the "
+             "reference trajectory; TLC accepts the outcome only if it satisfies FitPost (inside the box, not worse than the start, "
+             "generating parameters returned when started there on noise-free data).",
+        design="5 C18, 3.9",
+        note="The optimiser is not modelled, so this is exploration of the configuration matrix, not a proof; quick tier runs one "
+             "configuration per model x class x start."),
+})
+
 NOT_APPLICABLE = {
     "C14": "stateless real-valued kernels (log/lgamma): no transitions or histories for a TLA+ model to decide; "
            "the decisive comparison is floating-point agreement with reference densities, a different technique "
